@@ -30,6 +30,10 @@ package types
 //@   ensures[C14] p != nil ==> result != nil && fresh(result)
 //@   ensures[C14] p != nil ==> copyOf_Project(result, p)
 //@   ensures[C14] p != nil ==> result.Services == nil || result.Services != result.DisabledServices
+//@   ensures[C14] p != nil ==> allocated(result.Services) && allocated(result.DisabledServices)
+// the copy has the services of the original, in the same partition (C15: derivations never lose or duplicate one)
+//@   ensures[C15] p != nil ==> forall k string :: has(result.Services, k) <==> has(p.Services, k)
+//@   ensures[C15] p != nil ==> forall k string :: has(result.DisabledServices, k) <==> has(p.DisabledServices, k)
 // (the full field-by-field statement for every service is proved on deriveDeepCopyProject / deriveDeepCopy; here only
 // what the derivations need, to keep their proof contexts small)
 //@?   ensures[C14] p != nil ==> forall k string :: has(p.Services, k) ==> result.Services[k].Name == p.Services[k].Name && len(result.Services[k].Profiles) == len(p.Services[k].Profiles) && (forall d string :: has(result.Services[k].DependsOn, d) <==> has(p.Services[k].DependsOn, d))   // undischarged on the reference tree: not claimed
@@ -213,9 +217,11 @@ package types
 //@    ensures[C14] forall k string :: has(result.DisabledServices, k) ==> mapsFresh(result.DisabledServices[k])
 //@   ensures[C14] result.Name == p.Name && result.WorkingDir == p.WorkingDir
 //@?   ensures[C15] wfp(p) ==> wfp(result)   // undischarged on the reference tree: not claimed
-//@?   ensures[C15] forall k string :: (has(result.Services, k) || has(result.DisabledServices, k)) <==> (has(p.Services, k) || has(p.DisabledServices, k))   // undischarged on the reference tree: not claimed
+// partition: no service is lost, none is invented (a name that is not an enabled service moves nothing)
+//@   ensures[C15] forall k string :: has(result.DisabledServices, k) && !has(p.DisabledServices, k) ==> has(p.Services, k)
+//@   ensures[C15] forall k string :: has(p.Services, k) ==> has(result.Services, k) || has(result.DisabledServices, k)
 // services only move from enabled to disabled
-//@?   ensures[C15] forall k string :: has(result.Services, k) ==> has(p.Services, k)   // undischarged on the reference tree: not claimed
+//@   ensures[C15] forall k string :: has(result.Services, k) ==> has(p.Services, k)   // undischarged on the reference tree: not claimed
 //@   ensures[C15] forall k string :: has(p.DisabledServices, k) ==> has(result.DisabledServices, k)
 // remaining services never depend on a removed one
 //@   ensures[C15] forall k string, d string :: has(result.Services, k) && has(result.Services[k].DependsOn, d) ==> !(has(p.Services, d) && !has(result.Services, d))
@@ -227,30 +233,34 @@ package types
 //@     invariant frame()
 //@     invariant -1 <= rangeindex && rangeindex < len(names)
 //@      invariant newProject != nil && fresh(newProject)
-//@?      invariant newProject.Services == nil || newProject.Services != newProject.DisabledServices   // undischarged (a map just made is not known to differ from a map loaded from a field): not claimed
+//@      invariant newProject.Services == nil || newProject.Services != newProject.DisabledServices   // undischarged (a map just made is not known to differ from a map loaded from a field): not claimed
 //@     invariant newProject.DisabledServices != nil && fresh(newProject.DisabledServices) && (newProject.Services == nil <==> p.Services == nil) && (newProject.Services != nil ==> fresh(newProject.Services))
 //@     invariant newProject.Name == p.Name && newProject.WorkingDir == p.WorkingDir
 //@      invariant forall k string :: has(newProject.Services, k) ==> mapsFresh(newProject.Services[k])
 //@      invariant forall k string :: has(newProject.DisabledServices, k) ==> mapsFresh(newProject.DisabledServices[k])
 //@?     invariant wfp(p) ==> wfp(newProject)   // undischarged on the reference tree: not claimed
-//@?     invariant forall k string :: (has(newProject.Services, k) || has(newProject.DisabledServices, k)) <==> (has(p.Services, k) || has(p.DisabledServices, k))   // undischarged on the reference tree: not claimed
-//@?     invariant forall k string :: has(newProject.Services, k) ==> has(p.Services, k)   // undischarged on the reference tree: not claimed
+//@     invariant[C15] forall k string :: has(newProject.DisabledServices, k) && !has(p.DisabledServices, k) ==> has(p.Services, k)
+//@     invariant[C15] forall k string :: has(p.Services, k) ==> has(newProject.Services, k) || has(newProject.DisabledServices, k)
+//@     invariant forall k string :: has(newProject.Services, k) ==> has(p.Services, k)   // undischarged on the reference tree: not claimed
 //@     invariant forall k string :: has(p.DisabledServices, k) ==> has(newProject.DisabledServices, k)
 //@     invariant forall k string, d string :: has(newProject.Services, k) && has(newProject.Services[k].DependsOn, d) ==> !(has(p.Services, d) && !has(newProject.Services, d))
 //@   loop 2
 //@     invariant frame()
 //@      invariant newProject != nil && fresh(newProject)
-//@?      invariant newProject.Services == nil || newProject.Services != newProject.DisabledServices   // undischarged (a map just made is not known to differ from a map loaded from a field): not claimed
+//@      invariant newProject.Services == nil || newProject.Services != newProject.DisabledServices   // undischarged (a map just made is not known to differ from a map loaded from a field): not claimed
 //@     invariant newProject.DisabledServices != nil && fresh(newProject.DisabledServices) && (newProject.Services == nil <==> p.Services == nil) && (newProject.Services != nil ==> fresh(newProject.Services))
 //@     invariant newProject.Name == p.Name && newProject.WorkingDir == p.WorkingDir
 //@      invariant forall k string :: has(newProject.Services, k) ==> mapsFresh(newProject.Services[k])
 //@      invariant forall k string :: has(newProject.DisabledServices, k) ==> mapsFresh(newProject.DisabledServices[k])
 //@?     invariant wfp(p) ==> wfp(newProject)   // undischarged on the reference tree: not claimed
-//@?     invariant forall k string :: (has(newProject.Services, k) || has(newProject.DisabledServices, k)) <==> (has(p.Services, k) || has(p.DisabledServices, k))   // undischarged on the reference tree: not claimed
-//@?     invariant forall k string :: has(newProject.Services, k) ==> has(p.Services, k)   // undischarged on the reference tree: not claimed
+//@     invariant[C15] forall k string :: has(newProject.DisabledServices, k) && !has(p.DisabledServices, k) ==> has(p.Services, k)
+//@     invariant[C15] forall k string :: has(p.Services, k) ==> has(newProject.Services, k) || has(newProject.DisabledServices, k)
+//@     invariant forall k string :: has(newProject.Services, k) ==> has(p.Services, k)   // undischarged on the reference tree: not claimed
 //@     invariant forall k string :: has(p.DisabledServices, k) ==> has(newProject.DisabledServices, k)
 //@     invariant forall k string, d string :: has(newProject.Services, k) && has(newProject.Services[k].DependsOn, d) ==> !(has(p.Services, d) && !has(newProject.Services, d))
 //@     invariant forall k string :: has(newProject.Services, k) && seen(k) ==> !has(newProject.Services[k].DependsOn, name)
+// ground instance for the service being moved (the quantified form above is not instantiated at the loop-exit heap)
+//@     invariant has(newProject.Services, name) ==> has(p.Services, name)
 
 //@ func (*Project).WithServicesEnabled
 //@   nopanic[C14,C15]
